@@ -375,8 +375,61 @@ def values(out_path):
     json.dump({"executed": ex, "failures": F.items, "per_clause": F.per, "skipped": F.skipped}, open(out_path, "w"), default=str)
 
 
+def state(cases_path, out_path):
+    """replay of SerifReprState histories: every step is the public call named by the spec action; after a printing the
+    body rows are those the spec computed under the limit in force"""
+    cases = json.load(open(cases_path))
+    F, ex = Fails(), 0
+    nrows = {"v10": 10, "v13": 13, "t13": 13, "t5": 5}
+    for n_case, hist in enumerate(cases):
+        set_repr_rows(12)                   # the documented default, said explicitly (a reset is one of the actions under test)
+        objs = {"v10": Vector([1000 + i for i in range(10)], name="v"), "v13": Vector([1000 + i for i in range(13)], name="w"),
+                "t13": Table({"a": [1000 + i for i in range(13)], "b": ["s%d" % i for i in range(13)]}),
+                "t5": Table({"a": [1000 + i for i in range(5)], "b": [float(i) for i in range(5)]})}
+        trail = []
+        for step in hist:
+            kind, obj, limit = step["kind"], step["obj"], step["limit"]
+            trail.append(kind + ("(" + obj + ")" if obj != "-" else "") + ("=" + str(limit) if kind in ("set", "tset") else ""))
+            case = {"history": list(trail), "_n": n_case}
+            if kind == "set":
+                st, r, e = attempt(lambda: set_repr_rows(limit))
+            elif kind == "reset":
+                st, r, e = attempt(lambda: set_repr_rows(None))
+            elif kind == "tset":
+                st, r, e = attempt(lambda: setattr(objs[obj], "_repr_rows", limit))
+            elif kind == "tclear":
+                st, r, e = attempt(lambda: setattr(objs[obj], "_repr_rows", None))
+            elif kind == "peek":
+                st, r, e = attempt(lambda: repr(objs[obj].peek()))
+            else:
+                before = vec_view(objs[obj]) if kind == "vprint" else table_view(objs[obj])
+                st, r, e = attempt(lambda: repr(objs[obj]))
+                ex += 1
+                if st != "ok" or not isinstance(r, str):
+                    F.add("repr_raises", case, type(e).__name__ + ": " + str(e)[:60] if st != "ok" else type(r).__name__, "a string")
+                    break
+                lines = r.split("\n")
+                got = body_ids(lines[:-1])
+                if got != step["rows"]:
+                    F.add("preview_rows", case, got, step["rows"], limit_in_force=limit)
+                m = (VEC_FOOT if kind == "vprint" else TAB_FOOT).match(lines[-1])
+                if not m or int(m.group(1)) != nrows[obj]:
+                    F.add("footer", case, lines[-1], "%d rows" % nrows[obj])
+                after = vec_view(objs[obj]) if kind == "vprint" else table_view(objs[obj])
+                if not views_equal(before, after):
+                    F.add("operands_unchanged", case, "repr changed the object", "unchanged")
+                continue
+            if st != "ok":
+                F.add("repr_raises", case, type(e).__name__ + ": " + str(e)[:60], "the call is accepted")
+                break
+    set_repr_rows(12)
+    json.dump({"executed": ex, "failures": F.items, "per_clause": F.per, "skipped": F.skipped}, open(out_path, "w"), default=str)
+
+
 if __name__ == "__main__":
-    if sys.argv[1] == "replay":
+    if sys.argv[1] == "state":
+        state(sys.argv[2], sys.argv[3])
+    elif sys.argv[1] == "replay":
         replay(sys.argv[2], sys.argv[3])
     else:
         values(sys.argv[2])
